@@ -5,3 +5,4 @@ import XcmModel.AttrPath
 import XcmModel.Addr
 import XcmModel.Wire
 import XcmModel.Framing
+import XcmModel.Btcp
